@@ -133,7 +133,7 @@ func (x *Exec) callSite(st *State, fr *Frame, kind, callee string, args, rets []
 	root := st.frames[0]
 	sp := shortPkg(x.fc.PkgPath)
 	for k, ca := range x.fc.Calls {
-		if ca.When != when || !patternMatches(ca.Pattern, kind, callee, sp) {
+		if ca.When != when || !(patternMatches(ca.Pattern, kind, callee, sp) || (x.siteAlias != "" && at != nil && patternMatches(ca.Pattern, kind, x.siteAlias, sp))) {
 			continue
 		}
 		env := x.envFor(st, root)
@@ -248,8 +248,16 @@ func (x *Exec) doCall(st *State, fr *Frame, at ssa.Instruction, cc *ssa.CallComm
 			}
 		}
 	}
+	alias := ""
+	if cc.IsInvoke() {
+		if a := ifaceMethodName(cc); a != callee {
+			alias = a
+		}
+	}
+	x.siteAlias = alias
 	x.callSite(st, fr, kind, callee, args, nil, "before", at)
 	ev := x.addEvent(st, kind, callee, args)
+	st.events[ev].Alias = alias
 	if kind == "go" {
 		// the goroutine is not executed (A1)
 		return true
